@@ -125,7 +125,15 @@ func TestHeapDiscipline(t *testing.T) {
 	vf.Checks(480, 6000)
 	rapid.Check(t, func(t *rapid.T) {
 		cfg := gen.Config{MaxStmts: rapid.IntRange(3, 9).Draw(t, "size"), MaxDepth: rapid.IntRange(1, 3).Draw(t, "depth"), Funcs: 3, Structs: true, AllowRTE: false, Bias: "heap"}
-		prog, feats := gen.Generate(t, cfg)
+		var prog *gen.Program
+		var feats map[string]int
+		if rapid.IntRange(0, 9).Draw(t, "profile") < 3 {
+			prog, feats = gen.GenerateAlias(t) // aliasing scenarios: value+Referenz of one variable, globals, early exits
+			feats["alias-scenario"]++
+			feats["early-return"] += 0
+		} else {
+			prog, feats = gen.Generate(t, cfg)
+		}
 		out := ref.Run(prog)
 		if out.Budget || out.Unspecified != "" || out.Laufzeitfehler {
 			vf.Count("discard:not-normally-terminating-or-unspecified")
